@@ -23,7 +23,7 @@ class C04(Prop):
             "A C loop adds single-number trees (dense sweep). libFuzzer fz_parse checks the fixed point on parser-made trees. "
             "non-trivial = tree with a non-integer double, an escape-needing byte or depth >= 2; distinct by tree hash")
     ASSUMPTIONS = ["only the C locale exists in this sandbox (decimal point is always '.')"]
-    REQUIRED_CLASSES = ["long_string>=1000", "non_integer_double", "escape_needed", "depth>=2", "growth_exercised", "from_parser", "top_of_range_double",
+    REQUIRED_CLASSES = ["long_string>=1000", "text_of_several_MB", "non_integer_double", "escape_needed", "depth>=2", "growth_exercised", "from_parser", "top_of_range_double",
                         "invalid_utf8", "wide_shallow>limit", "print_history_reused_constant_keys"]
 
     def budget(self, tier):
@@ -59,7 +59,19 @@ class C04(Prop):
         ckey = st.one_of(gens.ascii_keys(6), gens.escapey_strings(6), st.sampled_from([b"id", b"identifier", b"a", b"name", b"na\"me", b"k" * 40, b"\x01"]))
         hist_round = st.lists(st.tuples(ckey, leaves_u), min_size=1, max_size=4)
         history = st.fixed_dictionaries({"kind": st.just("history"), "rounds": st.lists(hist_round, min_size=2, max_size=4), "utf8": st.just(True)})
-        return gens.weighted((10, tree), (2, sweep), (1, history)).flatmap(
+        # texts of several MB (print buffers far beyond 1 MiB, single strings and keys of more than 512 KiB)
+        huge = st.tuples(st.sampled_from([524289, 600000, 700000, 1100000]), st.sampled_from([1, 64, 5000, 300000]), st.integers(0, 5),
+                         st.sampled_from([b"a", b"\"", b"\xc3\xa9", b"\n"])).map(
+            # (first string just over half a MiB, second one more than twice as long: a buffer that grows by less than doubling must
+            # still be made large enough), and a few other shapes
+            lambda t: {"kind": "tree", "utf8": True, "huge": True,
+                       "jv": [["A", [["S", b"a" * t[0]], ["S", b"b" * (2 * t[0] + t[1])]]],
+                              ["A", [["S", t[3] * (t[0] // len(t[3]))], ["S", b"b" * (2 * t[0] + t[1])]]],
+                              ["O", [[b"k" * t[0], ["S", b"v" * (2 * t[0] + t[1])]]]],
+                              ["A", [["S", b"x"], ["S", t[3] * ((2 * t[0] + t[1]) // len(t[3]))]]],
+                              ["O", [[b"first", ["S", b"p" * t[0]]], [b"second", ["A", [["N", 1.5], ["S", b"q" * (2 * t[0] + t[1])]]]]]],
+                              ["A", [["S", b"a" * t[0]], ["S", b"b" * (2 * t[0] + t[1])]]]][t[2]]})
+        return gens.weighted((400, tree), (80, sweep), (40, history), (1, huge)).flatmap(
             lambda c: st.integers(0, 2 ** 31).map(lambda s: dict(c, rseed=s)))
 
     def run_history(self, lib, case, stats):
@@ -120,6 +132,8 @@ class C04(Prop):
             classes.add("depth>=2")
         if jv[0] == "A" and len(jv[1]) >= 999:
             classes.add("wide_shallow>limit")
+        if case.get("huge"):
+            classes.add("text_of_several_MB")
         if not case["utf8"]:
             for n in model.walk_jv(jv):
                 if n[0] == "S":
@@ -137,7 +151,7 @@ class C04(Prop):
             printing.with_hooks(lib, mode)
             try:
                 tree = printing.build_tree(lib, jv)
-                texts = printing.print_all(lib, tree, stats, prebuf_subset=None if model.count_nodes(jv) < 200 else case["rseed"])
+                texts = printing.print_all(lib, tree, stats, prebuf_subset=None if (model.count_nodes(jv) < 200 and not case.get("huge")) else case["rseed"])
                 self.roundtrip(lib, tree, texts, stats, "built tree, %s" % ("custom hooks without realloc" if mode == LG_BOTH else "default allocator"))
                 if case["utf8"] and mode == LG_BOTH:
                     # the same value obtained through the parser
